@@ -20,7 +20,7 @@ META = {
         "quick": {"evaluations": 8000, "distinct_nontrivial": 1200, "tables": {"law/norm-conj": 1500, "law/norm-dagger": 1500, "law/involution": 1500, "law/dagger=conjT": 800, "law/graded-adjoint": 800, "law/network-norm": 600, "feature/odd": 1500, "feature/bra-like-dangling": 100, "feature/removed-sector-mirrors-a-present-one": 200, "feature/multi-label-array": 300}},
         "thorough": {"evaluations": 250000, "distinct_nontrivial": 30000, "tables": {"law/network-norm": 30000}},
     },
-    "wall": {"quick": 300, "thorough": 1700},
+    "wall": {"quick": 900, "thorough": 1700},
 }
 
 
